@@ -48,7 +48,7 @@ func run(c Case) (res vh.Result) {
 	mkwf := func(k int) string {
 		wf := fmt.Sprintf("wfr%d", k)
 		var sb strings.Builder
-		fmt.Fprintf(&sb, "name: %s\ndefaults:\n  deploy_timeout: 4s\nroles:\n", wf)
+		fmt.Fprintf(&sb, "name: %s\ndefaults:\n  deploy_timeout: 6s\nroles:\n", wf)
 		for i := 0; i < c.NTasks; i++ {
 			cls := fmt.Sprintf("r%dt%d", k, i)
 			fmt.Fprintf(&sb, "  - name: t%d\n    constraints:\n      - attribute: machine_id\n        value: %s\n    task:\n      load: %s\n", i, hostNames[(i+k)%3], cls)
@@ -355,19 +355,19 @@ func gen(t *rapid.T) Case {
 	return c
 }
 
-func TestCrashPoints(t *testing.T) { vh.Check(t, prop, gen, run) }
+func TestCrashPoints(t *testing.T) { vh.Check(t, prop, gen, vh.Confirmed(run)) }
 
 func TestFixed(t *testing.T) {
 	for _, p := range []string{"launching", "deployed", "mid-transition", "running", "teardown"} {
-		vh.Fixed(t, prop, "restart-"+p, Case{NTasks: 2, Envs: 1, Action: "restart", Point: p}, run)
+		vh.Fixed(t, prop, "restart-"+p, Case{NTasks: 2, Envs: 1, Action: "restart", Point: p}, vh.Confirmed(run))
 	}
 	if !vh.Open("KF-C18-reconcile-kills-owned") {
 		for _, p := range []string{"configured", "running", "mid-transition"} {
-			vh.Fixed(t, prop, "reconnect-"+p, Case{NTasks: 2, Envs: 2, Action: "reconnect", Point: p, Drops: 2}, run)
+			vh.Fixed(t, prop, "reconnect-"+p, Case{NTasks: 2, Envs: 2, Action: "reconnect", Point: p, Drops: 2}, vh.Confirmed(run))
 		}
 	}
 }
 
 func TestCanaryReconcile(t *testing.T) {
-	vh.Canary(t, prop, "KF-C18-reconcile-kills-owned", Case{NTasks: 2, Envs: 1, Action: "reconnect", Point: "configured", Drops: 1}, run)
+	vh.Canary(t, prop, "KF-C18-reconcile-kills-owned", Case{NTasks: 2, Envs: 1, Action: "reconnect", Point: "configured", Drops: 1}, vh.Confirmed(run))
 }
